@@ -63,6 +63,8 @@ func c14(c *Ctx) {
 	d.replyGuards("C14.reply-guards", "C14.adopt")
 	r.Rule("C14.digest", "computeAcceptKey is base64.StdEncoding(sha1(key || keyGUID)) with the RFC 6455 GUID (shared with C12.accept)")
 	acceptDigest(c, "C14.digest")
+	r.Rule("C14.token-list", "the reply's Upgrade / Connection lists are matched token by token with optional whitespace around commas (same rule as C12.token-list): a conformant reply is not refused and a near-miss token is not accepted")
+	newUpgA(c).tokenListOWS("C14.token-list")
 	d.keyFresh("C14.key-fresh")
 	d.preNetwork("C14.url-guards", "C14.request-shape", "C14.key-fresh")
 }
